@@ -162,6 +162,9 @@ type Sim struct {
 	// OnQuiescent, if set, is called by the controller at every quiescent instant before it
 	// chooses the next task. It must not block.
 	OnQuiescent func(s *Sim)
+	// OnAdvance, if set, is called when no task can run at the current simulated instant and the clock is about to
+	// jump to the next timer. It must not block.
+	OnAdvance func(s *Sim, to time.Duration)
 	// Clock, if set, replaces the default wall clock (base + mono + offset).
 	Clock func(t *Task) time.Time
 	// Values the harness wants to hang on the run.
@@ -265,6 +268,17 @@ func (s *Sim) Fail(class, format string, args ...interface{}) {
 	}
 	s.viol = &Violation{Class: class, Msg: fmt.Sprintf(format, args...), Step: s.steps}
 	s.Logf("VIOLATION %s: %s", class, s.viol.Msg)
+}
+
+// advancing tells the harness that every task is blocked at the current simulated instant and the clock is about to
+// jump to the next timer (oracles of the form "this must have happened without waiting for a timeout").
+func (s *Sim) advancing(to time.Duration) {
+	defer func() {
+		if r := recover(); r != nil {
+			s.Fail("state-unreadable", "the harness's clock-advance observer panicked: %v", r)
+		}
+	}()
+	s.OnAdvance(s, to)
 }
 
 // observe runs the harness's quiescent-state observer. The observer reads the state of the code under test (through the
@@ -685,6 +699,13 @@ func (s *Sim) Run(main func()) *Result {
 		if len(runnable) == 0 {
 			if tm, ok := s.popTimer(); ok {
 				if tm.at > s.now {
+					// nothing can run any more at this instant: the clock has to move for anything further to happen
+					if s.OnAdvance != nil && s.viol == nil {
+						s.advancing(tm.at)
+						if s.viol != nil {
+							break
+						}
+					}
 					s.now = tm.at
 				}
 				if tm.fn != nil {
